@@ -267,6 +267,31 @@ def scripted_cases():
 
     check("custom-op-raises", lambda: (T(2, 3),), lambda a: mg.Tensor._op(_Boom, a))
     check("custom-op-raises-inplace", lambda: (T(2, 3),), lambda a: mg.Tensor._op(_Boom, a, out=a))
+    # rejected keyword values: a non-boolean `constant=` (checked by Tensor.__init__ / Tensor._op), on plain and view ops
+    check("constant-nonbool", lambda: (T(2, 3), T(3)), lambda a, b: mg.add(a, b, constant=1))
+    check("constant-nonbool-str", lambda: (T(2, 3), T(3)), lambda a, b: mg.multiply(a, b, constant="no"))
+    check("constant-nonbool-view", lambda: (T(2, 3),), lambda a: mg.transpose(a, constant=0))
+    check("constant-nonbool-getitem", lambda: (T(2, 3),), lambda a: mg.reshape(a, (3, 2), constant=1))
+    check("constant-nonbool-sum", lambda: (T(2, 3),), lambda a: mg.sum(a, constant="yes"))
+
+    def _nd_operand():
+        # ... the user's own ndarray operand is locked on behalf of the op as well
+        a, arr = T(2, 3), np.ones(3)
+        try:
+            mg.add(a, arr, constant=1)
+            out.append(("constant-nonbool-ndarray", "did-not-raise", "the statement was expected to raise"))
+        except Exception:
+            pass
+        if not arr.flags.writeable or not a.data.flags.writeable:
+            out.append(("constant-nonbool-ndarray", "lock-left", "constant-nonbool-ndarray: the caller's ndarray operand (or the tensor) is "
+                        "left read-only by an operation that was rejected for its constant= argument"))
+
+    _nd_operand()
+    # multi-pass functions writing into a Tensor target: a failure in a later pass must not leave the earlier pass's result
+    check("clip-inplace-second-bound", lambda: (T(2, 3), T(2, 3)), lambda t, x: mg.clip(x, 0.5, np.ones(4), out=t), temporaries=True)
+    check("clip-inplace-second-bound-self", lambda: (T(2, 3),), lambda t: np.clip(t, 2.5, np.ones((5, 5)), out=t), temporaries=True)
+    check("clip-inplace-second-bound-method", lambda: (T(2, 3), T(2, 3)), lambda t, x: x.clip(0.5, np.ones(4), out=t), temporaries=True)
+    check("clip-inplace-first-bound", lambda: (T(2, 3), T(2, 3)), lambda t, x: mg.clip(x, np.ones(4), 0.5, out=t))
     check("where-shape", lambda: (T(2, 3), T(4)), lambda a, b: mg.where(np.ones((2, 3), bool), a, b))
     check("stack-shape", lambda: (T(2, 3), T(4)), lambda a, b: mg.stack([a, b]))
     # failures on natively read-only memory (NumPy refuses the write): the failing statement comes *after* ops that
@@ -346,7 +371,7 @@ def scripted_cases():
     return out
 
 
-N_SCRIPTED = 38
+N_SCRIPTED = 48
 
 
 def run(ctx: Ctx) -> Outcome:
